@@ -64,6 +64,7 @@ type output struct {
 	Panics        []string         `json:"panics"`
 	ElapsedMs     int64            `json:"elapsed_ms"`
 	Notes         []string         `json:"notes,omitempty"`
+	LoaderLogs    []loaderLog      `json:"loader_logs,omitempty"`  // mix: logs of the versioned urls for the Coq loader model
 	Observations  [][]int          `json:"observations,omitempty"` // mode "handoff": one list per case
 }
 
